@@ -1,10 +1,71 @@
 """Validates the reference definitions (the oracles) against published test vectors.
-Runs only code under /verif; never the repository's."""
+Runs only code under /verif (the specs evaluated on constant bit-vectors); never the repository's."""
+import os
 import sys
+
+sys.path.insert(0, os.path.dirname(os.path.dirname(os.path.abspath(__file__))))
+from engine import bv
+
+
+def cbytes(b):
+    return bv.const(int.from_bytes(b, "little"), 8 * len(b))
+
+
+def to_bytes(x):
+    v = bv.const_value(x)
+    assert v is not None, "spec did not constant-fold"
+    return v.to_bytes(len(x) // 8, "little")
+
+
+def check(name, got, want):
+    ok = got == want
+    print("  %-40s %s" % (name, "ok" if ok else "MISMATCH\n    got  %s\n    want %s" % (got.hex(), want.hex())))
+    return ok
 
 
 def main():
     ok = True
+    # ---- ChaCha20 block, RFC 7539 section 2.3.2
+    from spec import chacha as CH
+    key = bytes(range(32))
+    nonce = bytes.fromhex("000000090000004a00000000")
+    kw = CH.words32(cbytes(key))
+    d = [bv.const(1, 32)] + CH.words32(cbytes(nonce))
+    want = bytes.fromhex("10f1e7e4d13b5915500fdd1fa32071c4c7d1f4c733c068030422aa9ac3d46c4e"
+                         "d2826446079faa0914c2d705d98b02a2b5129cd1de164eb9cbd083e8a2503c4e")
+    ok &= check("ChaCha20 block (RFC 7539 2.3.2)", to_bytes(CH.block(kw, d, 10)), want)
+    # HChaCha20, draft-irtf-cfrg-xchacha section 2.2.1
+    key = bytes.fromhex("000102030405060708090a0b0c0d0e0f101112131415161718191a1b1c1d1e1f")
+    n16 = bytes.fromhex("000000090000004a0000000031415927")
+    sub = CH.hchacha(CH.words32(cbytes(key)), CH.words32(cbytes(n16)), 10)
+    want = bytes.fromhex("82413b4227b27bfed30e42508a877d73a0f9e4d58a74a853c12ec41326d3ecdc")
+    ok &= check("HChaCha20 (draft-irtf-cfrg-xchacha 2.2.1)", to_bytes(bv.concat(sub)), want)
+    # ---- Threefish, NIST submission KATs (zero key / tweak / block)
+    from spec import threefish as TF
+    for nw, want in ((4, "84da2a1f8beaee947066ae3e3103f1ad536db1f4a1192495116b9f3ce6133fd8"),
+                     (8, "b1a2bbc6ef6025bc40eb3822161f36e375d1bb0aee3186fbd19e47c5d479947b"
+                         "7bc2f8586e35f0cff7e7f03084b0b7b1f1ab3961a580a3e97eb41ea14a6d7bbe"),
+                     (16, "f05c3d0a3d05b304f785ddc7d1e036015c8aa76e2f217b06c6e1544c0bc1a90d"
+                          "f0accb9473c24e0fd54fea68057f43329cb454761d6df5cf7b2e9b3614fbd5a2"
+                          "0b2e4760b40603540d82eabc5482c171c832afbe68406bc39500367a592943fa"
+                          "9a5b4a43286ca3c4cf46104b443143d560a4b230488311df4feef7e1dfe8391e")):
+        z = cbytes(bytes(nw * 8))
+        got = to_bytes(TF.encrypt(nw, z, bv.const(0, 64), bv.const(0, 64), z))
+        ok &= check("Threefish-%d zero vector" % (nw * 64), got, bytes.fromhex(want))
+    # Threefish-512 with key/tweak/plaintext pattern from the Skein 1.3 reference KAT
+    key = bytes(range(0x10, 0x50))
+    pt = bytes(range(0xff, 0xbf, -1))
+    got = to_bytes(TF.encrypt(8, cbytes(key), bv.const(0x0706050403020100, 64), bv.const(0x0f0e0d0c0b0a0908, 64), cbytes(pt)))
+    want = bytes.fromhex("e304439626d45a2cb401cad8d636249a6338330eb06d45dd8b36b90e97254779"
+                         "272a0a8d99463504784420ea18c9a725af11dffea10162348927673d5c1caf3d")
+    ok &= check("Threefish-512 keyed vector", got, want)
+    for mod in ("blake", "skein", "jh", "groestl"):
+        try:
+            m = __import__("spec." + mod, fromlist=["selftest"])
+        except ImportError:
+            continue
+        if hasattr(m, "selftest"):
+            ok &= m.selftest(check)
     print("spec selftest: ok" if ok else "spec selftest: FAILED")
     return 0 if ok else 1
 
